@@ -380,9 +380,7 @@ Proof.
   intros [a b|n|n] Hw Hs; cbn [wf_qual sem_qual] in Hw, Hs; cbn [sv_qual ma_qual mc_qual].
   - apply andb_true_iff in Hw, Hs. destruct Hw as [Ha Hb]. destruct Hs as [Sa Sb].
     rewrite (lit_meaning a (ts_primitive a Ha) Sa), (lit_meaning b (ts_primitive b Hb) Sb). reflexivity.
-  - assert (S : lit_sem n = true).
-    { unfold kind_in in Hw. apply andb_true_iff in Hw. destruct Hw as [H1 _]. destruct n as [k s]. cbn [tk] in H1.
-      destruct k; cbn in H1; try discriminate; reflexivity. }
+  - pose proof Hs as S.
     rewrite (lit_meaning n (within_primitive n Hw) S). reflexivity.
   - assert (S : lit_sem n = true).
     { destruct (kind_single _ _ Hw) as [Hk _]. apply lit_sem_other; rewrite Hk; discriminate. }
